@@ -567,6 +567,27 @@ def _world(rng, tier, index, res, tr, ch):
                 viol("consume-jws:rejected-resolvable", "a token one party made with key %d of the shared set is not resolved by the other party's import: %r" % (forced, got), repro)
                 return
 
+    def appended_key():
+        """an application extends its long-lived set in place (`ks.keys.append(...)`) with a key that has no kid yet: a token
+        without kid is still accepted only when the set holds a single key, a token with a kid only by the key of that name"""
+        first = K.make_oct(erng.sub("appended-a%d" % sim.events), 32)
+        second = K.make_oct(erng.sub("appended-b%d" % sim.events), 32)
+        named = K.to_jose_fast(first, True)
+        ks = KeySet([named])
+        ks.keys.append(K.to_jose_fast(RKey("oct", None, None, None, second.k), True))
+        res.fired("kidless-key-appended-in-place")
+        res.case(index, sim.events, "appended-key")
+        for signer, sname in ((second, "the appended key"), (first, "the first key")):
+            tok = rjws.make_compact(rjws.compact_json({"alg": "HS256"}), b"appended", "HS256", signer)
+            try:
+                with_arg = ks if erng.chance(0.5) else (lambda o, _s=ks: _s)
+                jws.deserialize_compact(tok, with_arg, algorithms=ALLJWS)
+            except Exception:
+                continue
+            viol("consume-jws:no-kid-accepted-multi-key-set", "a token without kid made with %s was accepted against a set that holds two keys" % sname,
+                 {"op": "appended-key", "keys": [rk.to_jwk(first, True), rk.to_jwk(second, True)]})
+            return
+
     # ---------------- JWE: peer encrypts to the fetched public set, owner decrypts ----------------
     def mint_jwe(liveness=False):
         peer = erng.pick(peers)
@@ -685,6 +706,7 @@ def _world(rng, tier, index, res, tr, ch):
         elif r < 0.53:
             sim.at(sim.now + t, generated_set, "generated-set")
             sim.at(sim.now + t + 0.5, shared_secret_jwks, "shared-secret-jwks")
+            sim.at(sim.now + t + 0.7, appended_key, "appended-key")
         elif r < 0.58:
             sim.at(sim.now + t, mint_jwe_multi, "mint-jwe-multi")
         elif r < 0.76:
